@@ -898,7 +898,177 @@ static void fam_zz_red(void)
 }
 
 /*@MORE@*/
-static void fam_ww(void) {}
+/* ------------------------------------------------------------------ ww */
+#define WL(fam_op, ed_) LB("ww", fam_op, ed_)
+static void ww_cmp_all(const num* a, const num* b, const char* cls)
+{
+	size_t n = a->n; int r;
+	WL("wwEq", "safe"); jInt("n", n); LW("a", a->v, n); LW("b", b->v, n); CALL(r = SAFE(wwEq)(a->v, b->v, n)); jInt("ret", r); LE_(cls, "none");
+	WL("wwEq", "fast"); jInt("n", n); LW("a", a->v, n); LW("b", b->v, n); CALL(r = FAST(wwEq)(a->v, b->v, n)); jInt("ret", r); LE_(cls, "none");
+	WL("wwCmp", "safe"); jInt("n", n); LW("a", a->v, n); LW("b", b->v, n); CALL(r = SAFE(wwCmp)(a->v, b->v, n)); jInt("ret", r); LE_(cls, "none");
+	WL("wwCmp", "fast"); jInt("n", n); LW("a", a->v, n); LW("b", b->v, n); CALL(r = FAST(wwCmp)(a->v, b->v, n)); jInt("ret", r); LE_(cls, "none");
+}
+static void fam_ww(void)
+{
+	size_t li, i, j, n, P; int k; num a, b;
+	for (li = 0; li < nlens(); ++li)
+	{
+		n = lens(li); P = nshapes(n);
+		if (n > 8 && n != 21) continue;
+		for (i = 0; i < P; ++i)
+		{
+			int r; size_t sz;
+			mkshape(&a, n, (int)i);
+			MKCLS("a=%s", a.nm);
+			set_fill(C, n, 0x5A);
+			WL("wwCopy", "def"); jInt("n", n); LW("a", a.v, n); CALL(wwCopy(C, a.v, n)); LW("c", C, n); LE_(CLS, "none");
+			WL("wwSetZero", "def"); jInt("n", n); wwCopy(C, a.v, n); CALL(wwSetZero(C, n)); LW("c", C, n); LE_(CLS, "none");
+			WL("wwIsZero", "safe"); jInt("n", n); LW("a", a.v, n); CALL(r = SAFE(wwIsZero)(a.v, n)); jInt("ret", r); LE_(CLS, "none");
+			WL("wwIsZero", "fast"); jInt("n", n); LW("a", a.v, n); CALL(r = FAST(wwIsZero)(a.v, n)); jInt("ret", r); LE_(CLS, "none");
+			WL("wwWordSize", "def"); jInt("n", n); LW("a", a.v, n); CALL(sz = wwWordSize(a.v, n)); jInt("ret", (long long)sz); LE_(CLS, "none");
+			WL("wwOctetSize", "def"); jInt("n", n); LW("a", a.v, n); CALL(sz = wwOctetSize(a.v, n)); jInt("ret", (long long)sz); LE_(CLS, "none");
+			WL("wwBitSize", "def"); jInt("n", n); LW("a", a.v, n); CALL(sz = wwBitSize(a.v, n)); jInt("ret", (long long)sz); LE_(CLS, "none");
+			WL("wwLoZeroBits", "def"); jInt("n", n); LW("a", a.v, n); CALL(sz = wwLoZeroBits(a.v, n)); jInt("ret", (long long)sz); LE_(CLS, "none");
+			WL("wwHiZeroBits", "def"); jInt("n", n); LW("a", a.v, n); CALL(sz = wwHiZeroBits(a.v, n)); jInt("ret", (long long)sz); LE_(CLS, "none");
+			/* single-bit words: sizes at every word boundary */
+			if (i == 0 && n)
+			{
+				size_t pos;
+				for (pos = 0; pos < n * B_PER_W; pos += (pos % B_PER_W == B_PER_W - 2 || pos % B_PER_W == B_PER_W - 1 || pos % B_PER_W == 0) ? 1 : (B_PER_W / 2 - 1))
+				{
+					char c2[64]; snprintf(c2, sizeof(c2), "a=bit%u", (unsigned)pos);
+					memset(A, 0, sizeof(word) * n); wwSetBit(A, pos, 1);
+					WL("wwBitSize", "def"); jInt("n", n); LW("a", A, n); CALL(sz = wwBitSize(A, n)); jInt("ret", (long long)sz); LE_(c2, "none");
+					WL("wwOctetSize", "def"); jInt("n", n); LW("a", A, n); CALL(sz = wwOctetSize(A, n)); jInt("ret", (long long)sz); LE_(c2, "none");
+					WL("wwWordSize", "def"); jInt("n", n); LW("a", A, n); CALL(sz = wwWordSize(A, n)); jInt("ret", (long long)sz); LE_(c2, "none");
+					WL("wwLoZeroBits", "def"); jInt("n", n); LW("a", A, n); CALL(sz = wwLoZeroBits(A, n)); jInt("ret", (long long)sz); LE_(c2, "none");
+					WL("wwHiZeroBits", "def"); jInt("n", n); LW("a", A, n); CALL(sz = wwHiZeroBits(A, n)); jInt("ret", (long long)sz); LE_(c2, "none");
+				}
+			}
+			/* with a machine word */
+			for (k = 0; k < 9; ++k)
+			{
+				word w = alpha(k); char c2[96];
+				snprintf(c2, sizeof(c2), "a=%s,w=%s", a.nm, AN[k]);
+				WL("wwCmpW", "safe"); jInt("n", n); LW("a", a.v, n); LWord("w", w); CALL(r = SAFE(wwCmpW)(a.v, n, w)); jInt("ret", r); LE_(c2, "none");
+				WL("wwCmpW", "fast"); jInt("n", n); LW("a", a.v, n); LWord("w", w); CALL(r = FAST(wwCmpW)(a.v, n, w)); jInt("ret", r); LE_(c2, "none");
+				WL("wwIsW", "safe"); jInt("n", n); LW("a", a.v, n); LWord("w", w); CALL(r = SAFE(wwIsW)(a.v, n, w)); jInt("ret", r); LE_(c2, "none");
+				WL("wwIsW", "fast"); jInt("n", n); LW("a", a.v, n); LWord("w", w); CALL(r = FAST(wwIsW)(a.v, n, w)); jInt("ret", r); LE_(c2, "none");
+				WL("wwIsRepW", "safe"); jInt("n", n); LW("a", a.v, n); LWord("w", w); CALL(r = SAFE(wwIsRepW)(a.v, n, w)); jInt("ret", r); LE_(c2, "none");
+				WL("wwIsRepW", "fast"); jInt("n", n); LW("a", a.v, n); LWord("w", w); CALL(r = FAST(wwIsRepW)(a.v, n, w)); jInt("ret", r); LE_(c2, "none");
+				if (i == 0 && (n > 0 || w == 0))
+				{
+					snprintf(c2, sizeof(c2), "w=%s", AN[k]);
+					set_fill(C, n, 0x5A); WL("wwSetW", "def"); jInt("n", n); LWord("w", w); CALL(wwSetW(C, n, w)); LW("c", C, n); LE_(c2, "none");
+					wwCopy(A, C, n);
+					WL("wwIsW", "safe"); jInt("n", n); LW("a", A, n); LWord("w", w); CALL(r = SAFE(wwIsW)(A, n, w)); jInt("ret", r); LE_(c2, "a=setw");
+					WL("wwIsW", "fast"); jInt("n", n); LW("a", A, n); LWord("w", w); CALL(r = FAST(wwIsW)(A, n, w)); jInt("ret", r); LE_(c2, "a=setw");
+					WL("wwCmpW", "safe"); jInt("n", n); LW("a", A, n); LWord("w", w); CALL(r = SAFE(wwCmpW)(A, n, w)); jInt("ret", r); LE_(c2, "a=setw");
+					WL("wwCmpW", "fast"); jInt("n", n); LW("a", A, n); LWord("w", w); CALL(r = FAST(wwCmpW)(A, n, w)); jInt("ret", r); LE_(c2, "a=setw");
+					set_fill(C, n, 0x5A); WL("wwRepW", "def"); jInt("n", n); LWord("w", w); CALL(wwRepW(C, n, w)); LW("c", C, n); LE_(c2, "none");
+					wwCopy(A, C, n);
+					WL("wwIsRepW", "safe"); jInt("n", n); LW("a", A, n); LWord("w", w); CALL(r = SAFE(wwIsRepW)(A, n, w)); jInt("ret", r); LE_(c2, "a=repw");
+					WL("wwIsRepW", "fast"); jInt("n", n); LW("a", A, n); LWord("w", w); CALL(r = FAST(wwIsRepW)(A, n, w)); jInt("ret", r); LE_(c2, "a=repw");
+					if (n) { A[n - 1] ^= 1;
+					WL("wwIsRepW", "safe"); jInt("n", n); LW("a", A, n); LWord("w", w); CALL(r = SAFE(wwIsRepW)(A, n, w)); jInt("ret", r); LE_(c2, "a=repw-flip-top");
+					WL("wwIsRepW", "fast"); jInt("n", n); LW("a", A, n); LWord("w", w); CALL(r = FAST(wwIsRepW)(A, n, w)); jInt("ret", r); LE_(c2, "a=repw-flip-top"); }
+				}
+			}
+			/* shifts, trims, bits */
+			if (n)
+			{
+				static const size_t SHB[] = { 0, 1, 7, 8, 15, 16, 17, 31, 32, 33, 63, 64, 65, 127, 128, 129 };
+				size_t t;
+				for (t = 0; t < COUNT_OF(SHB) + 3; ++t)
+				{
+					size_t sh = t < COUNT_OF(SHB) ? SHB[t] : t == COUNT_OF(SHB) ? n * B_PER_W - 1 : t == COUNT_OF(SHB) + 1 ? n * B_PER_W : n * B_PER_W + 3;
+					char c2[96]; word cw = alpha((int)((t + i) % 9)), rw;
+					if (!THOROUGH && (t + i) % 2 && sh != 1 && sh != B_PER_W) continue;
+					snprintf(c2, sizeof(c2), "a=%s,shift=%u%s", a.nm, (unsigned)sh, sh >= n * B_PER_W ? ">=len" : "");
+					wwCopy(A, a.v, n); WL("wwShLo", "def"); jInt("n", n); LW("a", A, n); jInt("shift", (long long)sh); CALL(wwShLo(A, n, sh)); LW("c", A, n); LE_(c2, "none");
+					wwCopy(A, a.v, n); WL("wwShHi", "def"); jInt("n", n); LW("a", A, n); jInt("shift", (long long)sh); CALL(wwShHi(A, n, sh)); LW("c", A, n); LE_(c2, "none");
+					wwCopy(A, a.v, n); WL("wwTrimLo", "def"); jInt("n", n); LW("a", A, n); jInt("pos", (long long)sh); CALL(wwTrimLo(A, n, sh)); LW("c", A, n); LE_(c2, "none");
+					wwCopy(A, a.v, n); WL("wwTrimHi", "def"); jInt("n", n); LW("a", A, n); jInt("pos", (long long)sh); CALL(wwTrimHi(A, n, sh)); LW("c", A, n); LE_(c2, "none");
+					if (sh <= B_PER_W)        /* one carry word can fill at most B_PER_W freed positions */
+					{
+						snprintf(c2, sizeof(c2), "a=%s,shift=%u,carry=%s", a.nm, (unsigned)sh, AN[(t + i) % 9]);
+						wwCopy(A, a.v, n); WL("wwShLoCarry", "def"); jInt("n", n); LW("a", A, n); jInt("shift", (long long)sh); LWord("w", cw);
+						CALL(rw = wwShLoCarry(A, n, sh, cw)); LW("c", A, n); LWord("ret", rw); LE_(c2, "none");
+						wwCopy(A, a.v, n); WL("wwShHiCarry", "def"); jInt("n", n); LW("a", A, n); jInt("shift", (long long)sh); LWord("w", cw);
+						CALL(rw = wwShHiCarry(A, n, sh, cw)); LW("c", A, n); LWord("ret", rw); LE_(c2, "none");
+					}
+					if (sh < n * B_PER_W)
+					{
+						size_t wd;
+						snprintf(c2, sizeof(c2), "a=%s,pos=%u", a.nm, (unsigned)sh);
+						WL("wwTestBit", "def"); jInt("n", n); LW("a", a.v, n); jInt("pos", (long long)sh); CALL(r = wwTestBit(a.v, sh)); jInt("ret", r); LE_(c2, "none");
+						wwCopy(A, a.v, n); WL("wwSetBit", "def"); jInt("n", n); LW("a", A, n); jInt("pos", (long long)sh); jInt("val", (int)(t % 2)); CALL(wwSetBit(A, sh, (bool_t)(t % 2))); LW("c", A, n); LE_(c2, "none");
+						wwCopy(A, a.v, n); WL("wwFlipBit", "def"); jInt("n", n); LW("a", A, n); jInt("pos", (long long)sh); CALL(wwFlipBit(A, sh)); LW("c", A, n); LE_(c2, "none");
+						for (wd = 0; wd <= B_PER_W; wd += (wd < 2 || wd >= B_PER_W - 1) ? 1 : (B_PER_W / 2 - 1))
+						{
+							word v = alpha((int)((wd + t) % 9));
+							if (sh + wd > n * B_PER_W) break;
+							snprintf(c2, sizeof(c2), "a=%s,pos=%u,width=%u", a.nm, (unsigned)sh, (unsigned)wd);
+							WL("wwGetBits", "def"); jInt("n", n); LW("a", a.v, n); jInt("pos", (long long)sh); jInt("width", (long long)wd); CALL(rw = wwGetBits(a.v, sh, wd)); LWord("ret", rw); LE_(c2, "none");
+							wwCopy(A, a.v, n); WL("wwSetBits", "def"); jInt("n", n); LW("a", A, n); jInt("pos", (long long)sh); jInt("width", (long long)wd); LWord("w", v);
+							CALL(wwSetBits(A, sh, wd, v)); LW("c", A, n); LE_(c2, "none");
+						}
+					}
+				}
+			}
+			/* binary */
+			for (j = 0; j < P; ++j)
+			{
+				char c2[128];
+				if (!pairsel(i, j, P)) continue;
+				mkshape(&b, n, (int)j);
+				snprintf(c2, sizeof(c2), "a=%s,b=%s", a.nm, b.nm);
+				ww_cmp_all(&a, &b, c2);
+				wwCopy(A, a.v, n); wwCopy(B_, b.v, n); set_fill(C, n, 0x5A);
+				WL("wwXor", "def"); jInt("n", n); LW("a", A, n); LW("b", B_, n); CALL(wwXor(C, A, B_, n)); LW("c", C, n); LE_(c2, "none");
+				WL("wwXor", "def"); jInt("n", n); LW("a", A, n); LW("b", B_, n); CALL(wwXor(A, A, B_, n)); LW("c", A, n); LE_(c2, "c=a");
+				wwCopy(A, a.v, n);
+				WL("wwXor2", "def"); jInt("n", n); LW("a", A, n); LW("b", B_, n); CALL(wwXor2(B_, A, n)); LW("c", B_, n); LE_(c2, "none");
+				wwCopy(B_, b.v, n);
+				WL("wwSwap", "def"); jInt("n", n); LW("a", A, n); LW("b", B_, n); CALL(wwSwap(A, B_, n)); LW("c", A, n); LW("d", B_, n); LE_(c2, "none");
+				/* equal except for one word: first difference at every position (C14 part 1) */
+				if (i == j && n)
+				{
+					size_t pos;
+					for (pos = 0; pos < n; ++pos)
+					{
+						num b2 = a;
+						b2.v[pos] ^= (pos % 2) ? BHALF : 1;
+						snprintf(c2, sizeof(c2), "a=%s,b=a^word%u", a.nm, (unsigned)pos);
+						ww_cmp_all(&a, &b2, c2); ww_cmp_all(&b2, &a, c2);
+					}
+					snprintf(c2, sizeof(c2), "a=%s,b=a", a.nm);
+					{ int r2; WL("wwEq", "safe"); jInt("n", n); LW("a", a.v, n); LW("b", a.v, n); CALL(r2 = SAFE(wwEq)(a.v, a.v, n)); jInt("ret", r2); LE_(c2, "a=b");
+					  WL("wwCmp", "fast"); jInt("n", n); LW("a", a.v, n); LW("b", a.v, n); CALL(r2 = FAST(wwCmp)(a.v, a.v, n)); jInt("ret", r2); LE_(c2, "a=b"); }
+				}
+			}
+		}
+	}
+	/* wwCmp2: different lengths */
+	{
+		static const size_t NM[][2] = { {0,0},{0,1},{1,0},{1,2},{2,1},{1,3},{3,1},{2,3},{3,2},{0,3},{4,2},{2,6} };
+		for (li = 0; li < COUNT_OF(NM); ++li)
+		{
+			size_t m; n = NM[li][0]; m = NM[li][1];
+			for (i = 0; i < nshapes(n); ++i) for (j = 0; j < nshapes(m); ++j)
+			{
+				int r; char c2[128];
+				if (!pairsel(i, j, 12)) continue;
+				mkshape(&a, n, (int)i); mkshape(&b, m, (int)j);
+				/* make the common part equal on the diagonal so that the extra words decide */
+				if (i == j) wwCopy(n < m ? b.v : a.v, n < m ? a.v : b.v, n < m ? n : m);
+				snprintf(c2, sizeof(c2), "a=%s,b=%s%s", a.nm, b.nm, i == j ? ",common-equal" : "");
+				WL("wwCmp2", "safe"); jInt("n", n); jInt("m", m); LW("a", a.v, n); LW("b", b.v, m); CALL(r = SAFE(wwCmp2)(a.v, n, b.v, m)); jInt("ret", r); LE_(c2, "none");
+				WL("wwCmp2", "fast"); jInt("n", n); jInt("m", m); LW("a", a.v, n); LW("b", b.v, m); CALL(r = FAST(wwCmp2)(a.v, n, b.v, m)); jInt("ret", r); LE_(c2, "none");
+			}
+		}
+	}
+}
 static void fam_pp(void) {}
 static void fam_word(void) {}
 static void fam_qr(void) {}
